@@ -98,6 +98,8 @@ pub fn blocks(thorough: bool) -> Vec<Block> {
         b.push(Block::new(crate::props::c05::u_rep_single(&["a", "1"], 8), pres(&[R | D, R | W | I]), "7 subsets x {r+d, r+w+i} (class tokens inside nested repetitions)"));
         b.push(Block::new(Universe::new("U_pairs{e9,1f4a9,a}^<=4", &["\u{e9}", "\u{1f4a9}", "a"], 4, 2, false), vec![Cfg::new(E | R), Cfg::new(E | R | X), Cfg::new(G | R), Cfg::new(X | R)], "e+r, e+r+x, g+r, x+r (optional quantified runs of escaped characters)"));
         b.push(Block::new(Universe::new("U_adv(A_gcm)", A_GCM, 3, 1, false), pres(&[0, R]), "7 subsets x {{}, r}"));
+        b.push(Block::new(u_kind_pairs(2, 2, false), pres(&[0]), "7 subsets"));
+        b.push(Block::new(u_runs(), pres(&[0, I]), "7 subsets x {{}, i}"));
     } else {
         let b2: Vec<u32> = lattice_le(0, ALL_BITS & !(X | G | E | U | C), 2).iter().map(|c| c.bits).collect();
         b.push(Block::new(Universe::new("U_ab3{a,b}", &["a", "b"], 3, 0, true), pres(&bases8), "7 subsets x 8 bases"));
@@ -111,6 +113,10 @@ pub fn blocks(thorough: bool) -> Vec<Block> {
         b.push(Block::new(Universe::new("U_pairs{e9,1f4a9,a}^<=4", &["\u{e9}", "\u{1f4a9}", "a"], 4, 2, false), pres(&[R, R | I]), "7 subsets x {r, r+i}"));
         b.push(Block::new(Universe::new("U_adv(A_gcm)", A_GCM, 3, 1, false), pres(&bases8), "7 subsets x 8 bases"));
         b.push(Block::new(Universe::new("U_adv(A_gcm)", A_GCM, 2, 2, false), pres(&[0, R]), "7 subsets x {{}, r}"));
+        b.push(Block::new(u_kind_pairs(2, 3, false), pres(&[0]), "7 subsets"));
+        b.push(Block::new(u_kind_pairs(2, 2, true), pres(&[R, I, NA | NE]), "7 subsets x {r, i, na+ne}"));
+        b.push(Block::new(u_kind_pairs(3, 1, false), pres(&bases8), "7 subsets x 8 bases"));
+        b.push(Block::new(u_runs(), pres(&bases8), "7 subsets x 8 bases"));
     }
     b
 }
